@@ -71,6 +71,8 @@ def gen_project(rng):
         r = {'id': f'r{i}-{lang.lower()}', 'language': lang, 'rule': {'kind': LANGS[lang][1]}, 'message': f'm{i}'}
         if rng.random() < 0.8:
             r['severity'] = rng.choice(SEVS)
+        if rng.random() < 0.4:
+            r['fix'] = 'FIXED'          # findings of fixable rules count for the exit status like any other
         if rng.random() < 0.5:
             r['files'] = [gen_glob(rng, paths) for _ in range(rng.randint(1, 2))]
         if rng.random() < 0.4:
